@@ -1213,9 +1213,32 @@ func skipBodyRestoredRule(p *Prog, r *Report) {
 					}
 					return loadsFieldThroughPhis(s2.Val, fv, map[ssa.Value]bool{})
 				}
+				// a deferred closure that stores into the field restores it for every return
+				deferred := false
+				allCalls(fn, func(b2 *ssa.BasicBlock, c2 ssa.CallInstruction) {
+					d, isDefer := c2.(*ssa.Defer)
+					if !isDefer {
+						return
+					}
+					if mc, ok := d.Call.Value.(*ssa.MakeClosure); ok {
+						if cf, ok := mc.Fn.(*ssa.Function); ok {
+							for _, cb := range cf.Blocks {
+								for _, ci := range cb.Instrs {
+									if s2, ok := ci.(*ssa.Store); ok {
+										if _, f2 := fieldOfAddr(s2.Addr); f2 == fv {
+											if _, isC := s2.Val.(*ssa.Const); !isC {
+												deferred = true
+											}
+										}
+									}
+								}
+							}
+						}
+					}
+				})
 				handsBack := func(i ssa.Instruction) bool {
 					if isReturn(i) {
-						return true
+						return !deferred
 					}
 					_, isSend := i.(*ssa.Send)
 					return isSend
